@@ -301,6 +301,8 @@ def run(report, p):
                     ge = n.args[0]
                     dd = len(ge.generators) == 1 and len(ge.generators[0].ifs) == 1 and norm(ge.generators[0].ifs[0]) == f"{norm(ge.elt)} not in {norm(n.func.value)}" and norm(ge.elt) == norm(ge.generators[0].target)
                     r4.check(dd, m, n, "patterns are appended without the `not in` de-duplication filter")
+                elif meth == "extend" and n.args and isinstance(n.args[0], ast.ListComp) and any("not in" in norm(i) for g_ in n.args[0].generators for i in g_.ifs):
+                    r4.check(False, m, n, "the batch is filtered with `not in` while it is built as a list, i.e. BEFORE any of it is appended: a pattern that occurs twice in one batch (`-i X -i X`, a repeated line of a pattern file) is appended twice (a generator given to extend() is consumed lazily and sees the elements already appended)", construct="de-duplication filter evaluated before the batch is appended")
                 elif meth == "append":
                     gg = cfg_of(m)
                     nn = gg.node_for(n)
@@ -310,6 +312,18 @@ def run(report, p):
                     r4.check(False, m, n, f"the pattern list is modified by .{meth}(): order / accumulation of recorded patterns is not preserved")
                 else:
                     raise AnalysisError(f"{m.loc(n)}: unrecognised operation on the pattern list: {norm(n)[:80]}")
+            if isinstance(n, ast.AugAssign) and "_ignore_list" in norm(n.target):
+                r4.instance(m, n, norm(n)[:100])
+                v = n.value
+                if isinstance(n.op, ast.Add) and isinstance(v, ast.GeneratorExp):
+                    dd = len(v.generators) == 1 and len(v.generators[0].ifs) == 1 and norm(v.generators[0].ifs[0]) == f"{norm(v.elt)} not in {norm(n.target)}" and norm(v.elt) == norm(v.generators[0].target)
+                    r4.check(dd, m, n, "patterns are appended without the `not in` de-duplication filter")
+                elif isinstance(n.op, ast.Add) and isinstance(v, ast.ListComp) and any("not in" in norm(i) for g_ in v.generators for i in g_.ifs):
+                    r4.check(False, m, n, "the batch is filtered with `not in` while it is built as a list, i.e. BEFORE any of it is appended: a pattern that occurs twice in one batch (`-i X -i X`, a repeated line of a pattern file) is appended twice (a generator given to extend() is consumed lazily and sees the elements already appended)", construct="de-duplication filter evaluated before the batch is appended")
+                elif isinstance(n.op, ast.Add) and isinstance(v, (ast.List, ast.ListComp, ast.Name, ast.Call)):
+                    r4.check(False, m, n, "patterns are appended without the `not in` de-duplication filter", construct="pattern list += without de-duplication")
+                else:
+                    raise AnalysisError(f"{m.loc(n)}: unrecognised in-place operation on the pattern list: {norm(n)[:80]}")
             if isinstance(n, ast.Assign) and any("_ignore_list" in norm(t) for t in n.targets):
                 v = n.value
                 vt = norm(v)
